@@ -1035,7 +1035,8 @@ class ExprMixin:
         if emp is True:
             self.emit("loop", node, iterable=it, iterations=0, bounded=False)
             return
-        while n < self.unroll:
+        limit = self.unroll_of(it) if getattr(self, "unroll_of", None) else self.unroll
+        while n < limit:
             if n == 0 and emp is False:
                 c = 1          # a length test on this path already established that the iterable is not empty
             else:
@@ -1044,7 +1045,7 @@ class ExprMixin:
                 break
             yield self._nth_element(it, n)
             n += 1
-        self.emit("loop", node, iterable=it, iterations=n, bounded=(n >= self.unroll))
+        self.emit("loop", node, iterable=it, iterations=n, bounded=(n >= limit))
 
     def _nth_element(self, it: V, n: int) -> V:
         if isinstance(it, Term) and it.op in ("listcomp", "gencomp", "setcomp") and isinstance(it.args[0], V):
